@@ -45,8 +45,10 @@ def tesselate_ordered_polygon(n_vertices):
     return triangles
 
 
-# 8 halfplanes cannot define a polygon with more than 8 vertices
-TRIANGLES = tesselate_ordered_polygon(8)
+# 8 halfplanes cannot define a polygon with more than 8 distinct vertices, but
+# the halfplane intersection may report almost identical vertices twice (it
+# reserves space for 3 * 8 points), which must not truncate the triangle fan.
+TRIANGLES = tesselate_ordered_polygon(3 * 8)
 
 
 @numba.njit(cache=True)
